@@ -11,8 +11,9 @@
 EXTENDS FstAbs, Json, IOUtils
 
 Rec == ndJsonDeserialize(IOEnv.TRACE)
-VARIABLES l, run, files, used, nkv
-vars == <<l, run, files, used, nkv>>
+VARIABLES l, run, files, used, nkv,
+          digs       \* input |-> digest of the final file of its first run
+vars == <<l, run, files, used, nkv, digs>>
 E == Rec[l]
 IsEvent(e) == l <= Len(Rec) /\ Rec[l].ev = e /\ l' = l + 1
 R == Rec[run]
@@ -37,10 +38,10 @@ UnionFile(mode, fs) ==
     { <<k, IF mode = "set" THEN UZero
            ELSE MergeSet(mode, { <<i, (CHOOSE p \in fs[i] : p[1] = k)[2]>> : i \in { i \in 1..Len(fs) : \E p \in fs[i] : p[1] = k } })>> : k \in ks }
 
-Init == l = 1 /\ run = 0 /\ files = Empty /\ used = {} /\ nkv = 0
+Init == l = 1 /\ run = 0 /\ files = Empty /\ used = {} /\ nkv = 0 /\ digs = Empty
 
 Run == /\ IsEvent("Run")
-       /\ run' = l /\ files' = Empty /\ used' = {} /\ nkv' = 0
+       /\ run' = l /\ files' = Empty /\ used' = {} /\ nkv' = 0 /\ UNCHANGED digs
 
 Min2(a, b) == IF a <= b THEN a ELSE b
 Batch ==
@@ -52,7 +53,8 @@ Batch ==
                    lo == E.index * R.bs + 1
                    hi == Min2((E.index + 1) * R.bs, n) IN
                /\ lo <= n
-               /\ TRUE = (Pairs(E.content) = KvFile(R.mode, SubSeq(R.rows, lo, hi)))
+               \* (content: when the recorder could read the file after the run)
+               /\ (E.readable => TRUE = (Pairs(E.content) = KvFile(R.mode, SubSeq(R.rows, lo, hi))))
             /\ nkv' = nkv + 1 /\ UNCHANGED used
        ELSE /\ Len(E.inputs) >= 1 /\ Len(E.inputs) <= R.fd
             /\ \A i \in 1..Len(E.inputs) :
@@ -60,10 +62,11 @@ Batch ==
                   /\ E.inputs[i] \notin used                  \* each file consumed once
                   /\ Rec[files[E.inputs[i]]].gen = E.gen - 1  \* from the previous generation
             /\ Len(E.inputs) = Cardinality(SeqSet(E.inputs))
-            /\ TRUE = (Pairs(E.content) = UnionFile(R.mode, [i \in 1..Len(E.inputs) |-> Pairs(Rec[files[E.inputs[i]]].content)]))
+            /\ ((E.readable /\ \A i \in 1..Len(E.inputs) : Rec[files[E.inputs[i]]].readable)
+                  => TRUE = (Pairs(E.content) = UnionFile(R.mode, [i \in 1..Len(E.inputs) |-> Pairs(Rec[files[E.inputs[i]]].content)])))
             /\ used' = used \cup SeqSet(E.inputs) /\ UNCHANGED nkv
     /\ files' = Put(files, E.output, l)
-    /\ UNCHANGED run
+    /\ UNCHANGED <<run, digs>>
 
 Final ==
     /\ IsEvent("Final") /\ run # 0
@@ -74,12 +77,17 @@ Final ==
     /\ LET left == (DOMAIN files) \ used IN
        IF Len(R.rows) = 0 THEN left = {} /\ E.content = <<>>
        ELSE /\ Cardinality(left) = 1
-            /\ TRUE = (Pairs(E.content) = Pairs(Rec[files[CHOOSE f \in left : TRUE]].content))
+            /\ (Rec[files[CHOOSE f \in left : TRUE]].readable
+                  => TRUE = (Pairs(E.content) = Pairs(Rec[files[CHOOSE f \in left : TRUE]].content)))
     /\ TRUE = IsContent(E.content)
     /\ TRUE = (Pairs(E.content) = KvFile(R.mode, R.rows))             \* = merge of all rows
     /\ E.len = Len(E.content)
     \* without repeated keys: byte-identical to a sorted build
     /\ (R.dupfree => E.same_as_sorted = "yes")
+    \* "the same FST" for every batch size, fd limit, thread count and interleaving: the bytes
+    \* of the final file of every run over the same input and merge mode are the same
+    /\ IF R.input \in DOMAIN digs THEN digs[R.input] = E.digest /\ UNCHANGED digs
+       ELSE digs' = Put(digs, R.input, E.digest)
     /\ run' = 0 /\ UNCHANGED <<files, used, nkv>>
 
 Next == Run \/ Batch \/ Final
